@@ -117,6 +117,9 @@ type SessDef struct {
 // LoginDef is one SSH login.
 type LoginDef struct {
 	PID int
+	// SameAs > 0: this login is a re-delivery of login SameAs-1 (the same sshd line processed again): identical
+	// pid, user, credential, address and port, but an event and an arrival time of its own
+	SameAs int
 }
 
 // World is a fresh tracker with everything the harness needs to drive it.
@@ -270,8 +273,12 @@ func skipType(t reflect.Type) bool {
 }
 
 // mkLogin builds login i (at its arrival, like the sshd processor does).
-func (w *World) mkLogin(i int) common.RemoteUserLogin {
-	ld := w.Logins[i]
+func (w *World) mkLogin(idx int) common.RemoteUserLogin {
+	ld := w.Logins[idx]
+	i := idx
+	if ld.SameAs > 0 {
+		i = ld.SameAs - 1 // identity content of the original
+	}
 	evt := auditevent.NewAuditEvent(common.ActionLoginIdentifier,
 		auditevent.EventSource{Type: "IP", Value: fmt.Sprintf("10.0.0.%d", i+1), Extra: map[string]any{"port": strconv.Itoa(50000 + i)}},
 		auditevent.OutcomeSucceeded,
@@ -280,9 +287,9 @@ func (w *World) mkLogin(i int) common.RemoteUserLogin {
 	evt.Metadata.AuditID = fmt.Sprintf("login-%d", i)
 	evt.LoggedAt = w.now()
 	rul := common.RemoteUserLogin{Source: evt, PID: ld.PID, CredUserID: fmt.Sprintf("cred%d", i)}
-	w.ruls[i] = rul
-	w.snapEv[i] = cloneEvent(evt)
-	w.d.Labels[unsafe.Pointer(evt)] = fmt.Sprintf("L%d", i)
+	w.ruls[idx] = rul
+	w.snapEv[idx] = cloneEvent(evt)
+	w.d.Labels[unsafe.Pointer(evt)] = fmt.Sprintf("L%d", idx)
 	return rul
 }
 
